@@ -10,7 +10,7 @@
 From Coq Require Import String.
 From Sdns Require Import Common.Base Gen.C10 C10.Model C10.ModelStream C10.ModelShare C10.ModelPool
   C10.Proofs_UdpBase C10.Proofs_UdpInv C10.Proofs_UdpThm C10.Proofs_Stream C10.Proofs_Read C10.Proofs_Share C10.Proofs_Top
-  C10.Proofs_Pool C10.ModelChains C10.Proofs_Chains C10.Proofs_Read C10.Proofs_ConnFrames C10.ModelEdns C10.Proofs_Edns C10.Proofs_UdpStep C10.Proofs_Socks C10.Proofs_Msg C10.ModelFlight C10.Proofs_Flight C10.ModelQuery C10.Proofs_Query C10.ModelWriter C10.Proofs_Writer C10.ModelWrap C10.Proofs_Wrap.
+  C10.Proofs_Pool C10.ModelChains C10.Proofs_Chains C10.Proofs_Read C10.Proofs_ConnFrames C10.ModelEdns C10.Proofs_Edns C10.Proofs_UdpStep C10.Proofs_Socks C10.Proofs_Msg C10.ModelFlight C10.Proofs_Flight C10.ModelQuery C10.Proofs_Query C10.ModelWriter C10.Proofs_Writer C10.ModelWrap C10.Proofs_Wrap C10.ModelPack C10.Proofs_Pack.
 Open Scope nat_scope.
 
 (* ties: the constants the proofs compute with are the source's *)
@@ -512,6 +512,32 @@ Theorem putting_a_wrapper_twice_would_cross :
 Proof. exact double_put_crosses. Qed.
 Print Assumptions putting_a_wrapper_twice_would_cross.
 
+(* ------------------------------------------------------------------ the borrowed pack state
+   (responseWriter.WriteMsg's direct path: wire.TryPack packs into a packState from packStatePool and
+   the consumer hands the transport a slice of its buffer; an owned stream transport flushes a full
+   drain buffer to a slow client before it copies the new payload, a datagram send reads the slice
+   inside its syscall — and other requests pack their replies meanwhile).  For EVERY interleaving of
+   pack / transport-write-begins / transport-takes-the-bytes / TryPack-returns of any number of
+   concurrent writes, whatever states the pool hands out and however long a write parks:
+     the bytes a transport takes are the packed form of ITS OWN request's message; no pack state is
+     borrowed by two writes at once. *)
+Theorem parked_write_takes_own_bytes : forall l,
+  let s := psteps p_init l in
+  (forall r got own, In (r, got, own) (p_log s) -> got = own) /\
+  (forall x y, In x (p_live s) -> In y (p_live s) -> pw_k x = pw_k y -> x = y).
+Proof. exact pack_lemma. Qed.
+Print Assumptions parked_write_takes_own_bytes.
+
+(* ... and holding the state until the transport write has returned is necessary: in the variant that
+   gives it back first (the write happens after TryPack returned) request 2 is packed over request
+   1's reply while 1's write is parked and 1's transport takes 2's bytes (computed witness; second
+   half: the code cannot hand state 0 out and 1's transport takes its own bytes) (= seeded change 14) *)
+Theorem releasing_the_pack_state_before_the_write_would_leak :
+  p_log (psteps_early p_init pack_leak_schedule) = [(1, [2; 2]%N, [1; 1; 1]%N)] /\
+  p_log (psteps p_init pack_leak_schedule) = [(1, [1; 1; 1]%N, [1; 1; 1]%N)].
+Proof. exact early_release_leaks. Qed.
+Print Assumptions releasing_the_pack_state_before_the_write_would_leak.
+
 (* ------------------------------------------------------------------ non-vacuity *)
 (* a flight that is forgotten while running, its replacement with a follower who gives up, and a
    lone late caller: 1 alone on call 0 (not shared), 2 leads call 1 and is told shared because 3
@@ -617,3 +643,12 @@ Example pooled_wrappers_example :
   x_log s = [(3, Some (3, [Some 3; Some 3])); (1, Some (1, [Some 1; Some 1])); (2, Some (2, [Some 2; Some 2]))] /\
   x_live s = [] /\ length (x_pool s) = 4.
 Proof. exact wrap_example. Qed.
+
+
+(* request 1's transport write parks, request 2 is packed (another state) and sent meanwhile, request 3
+   later reuses state 0: every transport takes its own bytes *)
+Example parked_write_example :
+  let s := psteps p_init pack_example_schedule in
+  psteps_strict p_init pack_example_schedule = Some s /\
+  p_log s = [(3, [3]%N, [3]%N); (1, [1; 1; 1]%N, [1; 1; 1]%N); (2, [2; 2]%N, [2; 2]%N)] /\ p_live s = [].
+Proof. exact pack_example. Qed.
